@@ -89,6 +89,24 @@ fn tempfile_out() -> File {
 
 /// The merge laws of C19. Inputs are sorted and non-overlapping (touching allowed).
 pub fn merge_laws(input: &[(u64, u64)], output: &[(u64, u64)]) -> Result<(), String> {
+    // inputs that overlap each other (sorted by start only): only coverage and boundary laws apply
+    let disjoint_inputs = input.windows(2).all(|w| w[0].1 <= w[1].0);
+    if !disjoint_inputs {
+        for o in output {
+            if !input.iter().any(|i| i.0 == o.0) {
+                return Err(format!("output {:?} does not begin at an input boundary", o));
+            }
+            if !input.iter().any(|i| i.1 == o.1) {
+                return Err(format!("output {:?} does not end at an input boundary", o));
+            }
+        }
+        for i in input {
+            if !output.iter().any(|o| o.0 <= i.0 && i.1 <= o.1) {
+                return Err(format!("input {:?} is not covered by a single output range", i));
+            }
+        }
+        return Ok(());
+    }
     // outputs ordered and disjoint
     for w in output.windows(2) {
         if w[0].1 > w[1].0 || w[0].0 > w[1].0 {
@@ -178,6 +196,54 @@ fn cmd_merge_exhaustive(u: u64) -> i32 {
         true
     });
     println!("{}", json!({"universe": u, "lists": lists, "nontrivial": nontrivial, "violation": violation, "samples": samples}));
+    0
+}
+
+/// every list of up to `maxn` non-empty extents over 0..=u sorted by (start, end), overlaps and nesting allowed
+fn cmd_merge_exhaustive_overlap(u: u64, maxn: usize) -> i32 {
+    let mut all: Vec<(u64, u64)> = vec![];
+    for s in 0..u {
+        for e in (s + 1)..=u {
+            all.push((s, e));
+        }
+    }
+    let mut lists: u64 = 0;
+    let mut violation: Option<serde_json::Value> = None;
+    fn rec(all: &[(u64, u64)], from: usize, maxn: usize, cur: &mut Vec<(u64, u64)>, f: &mut dyn FnMut(&[(u64, u64)]) -> bool) -> bool {
+        if !f(cur) {
+            return false;
+        }
+        if cur.len() == maxn {
+            return true;
+        }
+        for i in from..all.len() {
+            cur.push(all[i]);
+            let c = rec(all, i, maxn, cur, f);
+            cur.pop();
+            if !c {
+                return false;
+            }
+        }
+        true
+    }
+    let mut cur = vec![];
+    rec(&all, 0, maxn, &mut cur, &mut |l: &[(u64, u64)]| {
+        lists += 1;
+        match run_merge(l) {
+            Ok(out) => {
+                if let Err(why) = merge_laws(l, &out) {
+                    violation = Some(json!({"input": l, "output": out, "why": why}));
+                    return false;
+                }
+            }
+            Err(e) => {
+                violation = Some(json!({"input": l, "why": format!("merge_extents failed: {}", e)}));
+                return false;
+            }
+        }
+        true
+    });
+    println!("{}", json!({"universe": u, "max_extents": maxn, "lists": lists, "violation": violation}));
     0
 }
 
@@ -397,6 +463,7 @@ fn main() {
         Some("extents") => cmd_extents(args.get(2).map(|s| s.as_str()).unwrap_or("")),
         Some("merge-list") => cmd_merge_list(),
         Some("merge-exhaustive") => cmd_merge_exhaustive(args.get(2).and_then(|s| s.parse().ok()).unwrap_or(8)),
+        Some("merge-exhaustive-overlap") => cmd_merge_exhaustive_overlap(args.get(2).and_then(|s| s.parse().ok()).unwrap_or(7), args.get(3).and_then(|s| s.parse().ok()).unwrap_or(3)),
         Some("copy") => cmd_copy(),
         _ => {
             eprintln!("usage: probe extents <file> | merge-list | merge-exhaustive <U> | copy");
